@@ -100,6 +100,23 @@ def generate(rng: Rng, n, tier="quick"):
         case["id"] = "%s-log%04d" % (ID, lv)
         lv += 1
         out.append((case, {"npart": 0}))
+    # EXHAUSTIVE: every shape of line end at the END and in the MIDDLE of every chunk an indented standalone partial writes (raw text
+    # before a tag, at the end of the partial, a data value, a helper's output): LF, CRLF, a bare CR, CR CR LF, LF CR, none – the
+    # streaming indentation writer scans each chunk for line ends
+    ends = ["", "\n", "\r\n", "\r", "\r\r\n", "\n\r", "\r\r", "x\r", "\u00e9\r", "\r\u00e9"]
+    ib = 0
+    for e1 in ends:
+        for e2 in ends:
+            for psrc in ("row" + e1 + "{{name}}" + e2, "{{name}}" + e1, e1 + "{{#each l}}{{this}}" + e2 + "{{/each}}", "a" + e1 + "{{> q}}" + e2 + "z"):
+                for main in ("top\n  {{> p}}\nafter\n", "\t{{> p}}", "x\n {{#> p}}d{{/p}}\n"):
+                    case = session({"strict": False, "escape": "html", "helpers": std_helpers()},
+                                   [("q", "q1" + e1 + "q2" + e2), ("p", psrc), ("main", main)], {"api": "render", "name": "main"},
+                                   {"name": "first" + e2, "l": ["i" + e1, e2]})
+                    case["ops"].append({"op": "reg_string", "reg": 0, "name": "after", "src": "ok:{{{n}}}"})
+                    case["ops"].append({"op": "render", "reg": 0, "api": "render", "name": "after", "data": enc({"n": 7})})
+                    case["id"] = "%s-indend%04d" % (ID, ib)
+                    ib += 1
+                    out.append((case, {"npart": 2}))
     for i in range(n):
         c, m = gen_case(rng.fork(i), i)
         c["id"] = "%s-%06d" % (ID, i)
